@@ -79,9 +79,19 @@ where
     out.push_str(if ir_ok { " ; ir=ok" } else { " ; ir=err" });
 }
 
-fn build_case<'src, I: HInput<'src>, E: HErr<'src, I>>(case: &Case) -> BP<'src, I, E> {
+pub fn build_case<'src, I: HInput<'src>, E: HErr<'src, I>>(case: &Case) -> BP<'src, I, E> {
+    if case.id.starts_with('R') && case.defs.len() == 1 {
+        // a single definition built with `recursive(|p| ..)` instead of declare/define
+        let def = case.defs[0].clone();
+        let rec = chumsky::recursive::recursive(move |p| {
+            let cx = Cx { defs: vec![p.boxed()], base: 0 };
+            build(&def, &cx)
+        });
+        let cx = Cx { defs: vec![rec.boxed()], base: 0 };
+        return build(&case.main, &cx);
+    }
     let mut defs: Vec<Rec<'src, I, E>> = case.defs.iter().map(|_| Recursive::declare()).collect();
-    let cx = Cx { defs: defs.clone(), base: 0 };
+    let cx = Cx { defs: defs.iter().map(|d| d.clone().boxed()).collect(), base: 0 };
     let bodies: Vec<_> = case.defs.iter().map(|d| build(d, &cx)).collect();
     for (d, b) in defs.iter_mut().zip(bodies) {
         d.define(b);
@@ -89,8 +99,17 @@ fn build_case<'src, I: HInput<'src>, E: HErr<'src, I>>(case: &Case) -> BP<'src, 
     build(&case.main, &cx)
 }
 
-fn run_one<'src, I: HInput<'src>, E: HErr<'src, I>>(
+pub fn run_one<'src, I: HInput<'src>, E: HErr<'src, I>>(
     p: &BP<'src, I, E>,
+    mode: ModeK,
+    input: I,
+) -> String {
+    run_one_p::<I, E, _>(p, mode, input)
+}
+
+/// the same through any parser value (used by the wrapper histories of C13)
+pub fn run_one_p<'src, I: HInput<'src>, E: HErr<'src, I>, P: Parser<'src, I, Val, Ex<E>>>(
+    p: &P,
     mode: ModeK,
     input: I,
 ) -> String {
@@ -162,7 +181,11 @@ fn to_char(t: u32) -> char {
 
 /// error-kind selector (the bins instantiate exactly one kind each, which keeps compile times flat)
 pub trait EKind {
-    type Err<'src>: HErr<'src, &'src str> + HErr<'src, &'src [char]>;
+    type Err<'src>: HErr<'src, &'src str>
+        + HErr<'src, &'src [char]>
+        + HErr<'src, MappedSlice<'src>>
+        + HErr<'src, CharStream>
+        + HErr<'src, MappedStream>;
 }
 pub struct RichK;
 pub struct SimpleK;
@@ -191,6 +214,64 @@ pub fn case_slice<K: EKind>(case: &Case, w: &mut dyn Write) {
     run_case_slice::<K::Err<'_>>(case, &inputs, w)
 }
 
+/// token spans of a mapped input with gap `g`: token i covers [i*(g+2)+g, i*(g+2)+g+2); eoi = empty span after the last gap
+pub fn mapped_tokens(ts: &[u32], gap: usize) -> (Vec<(char, Sp)>, Sp) {
+    let v = ts
+        .iter()
+        .enumerate()
+        .map(|(i, &t)| (to_char(t), Sp::from(i * (gap + 2) + gap..i * (gap + 2) + gap + 2)))
+        .collect::<Vec<_>>();
+    let e = ts.len() * (gap + 2) + gap;
+    (v, Sp::from(e..e))
+}
+
+fn emit_all<'src, I: HInput<'src>, E: HErr<'src, I>>(
+    case: &Case,
+    w: &mut dyn Write,
+    mut mk: impl FnMut(usize) -> I,
+) {
+    let built = catch_unwind(AssertUnwindSafe(|| build_case::<I, E>(case)));
+    for k in 0..case.inputs.len() {
+        let obs = match &built {
+            Ok(p) => run_one::<I, E>(p, case.mode, mk(k)),
+            Err(_) => format!("P {}", LAST_PANIC.with(|p| p.borrow().clone())),
+        };
+        let _ = writeln!(w, "{}.{} M {}", case.id, k, obs);
+    }
+}
+
+pub fn case_mapped<K: EKind>(case: &Case, w: &mut dyn Write) {
+    let gap = match case.kind {
+        Kind::Mapped(g) => g,
+        _ => 0,
+    };
+    let data: Vec<(Vec<(char, Sp)>, Sp)> = case.inputs.iter().map(|ts| mapped_tokens(ts, gap)).collect();
+    fn go<'src, E: HErr<'src, MappedSlice<'src>>>(case: &Case, data: &'src [(Vec<(char, Sp)>, Sp)], w: &mut dyn Write) {
+        emit_all::<MappedSlice<'src>, E>(case, w, |k| {
+            let f: fn(&'src (char, Sp)) -> (&'src char, &'src Sp) = proj_pair;
+            chumsky::input::Input::map(&data[k].0[..], data[k].1, f)
+        })
+    }
+    go::<K::Err<'_>>(case, &data, w)
+}
+
+pub fn case_stream<K: EKind>(case: &Case, w: &mut dyn Write) {
+    let data: Vec<Vec<char>> = case.inputs.iter().map(|ts| ts.iter().map(|&t| to_char(t)).collect()).collect();
+    emit_all::<CharStream, K::Err<'static>>(case, w, |k| chumsky::input::Stream::from_iter(data[k].clone()))
+}
+
+pub fn case_mstream<K: EKind>(case: &Case, w: &mut dyn Write) {
+    let gap = match case.kind {
+        Kind::MStream(g) => g,
+        _ => 0,
+    };
+    let data: Vec<(Vec<(char, Sp)>, Sp)> = case.inputs.iter().map(|ts| mapped_tokens(ts, gap)).collect();
+    emit_all::<MappedStream, K::Err<'static>>(case, w, |k| {
+        let f: fn((char, Sp)) -> (char, Sp) = id_pair;
+        chumsky::input::Input::map(chumsky::input::Stream::from_iter(data[k].0.clone()), data[k].1, f)
+    })
+}
+
 /// read case lines on stdin; lines whose (kind, error kind) is not `want` are answered with a marker
 pub fn main_loop(want: (Kind, EK), f: fn(&Case, &mut dyn Write)) {
     install_panic_hook();
@@ -208,7 +289,11 @@ pub fn main_loop(want: (Kind, EK), f: fn(&Case, &mut dyn Write)) {
         let mut rd = Rd::new(&line);
         match rd.case() {
             Ok(case) => {
-                if (case.kind, case.ek) == want {
+                let same_kind = match (case.kind, want.0) {
+                    (Kind::Mapped(_), Kind::Mapped(_)) | (Kind::MStream(_), Kind::MStream(_)) => true,
+                    (a, b) => a == b,
+                };
+                if same_kind && case.ek == want.1 {
                     f(&case, &mut w)
                 } else {
                     let _ = writeln!(w, "ERR wrong binary for this case :: {}", case.id);
